@@ -54,6 +54,25 @@ def kill_by_marker(marker, sig=signal.SIGKILL):
     return n
 
 
+def _merged_lines(trace_file):
+    """strace -f splits a call into '... <unfinished ...>' and '<... name resumed>...' when another
+    tracee reports in between; glue the halves together again (per pid)"""
+    pending = {}
+    for line in open(trace_file, errors="replace"):
+        line = line.rstrip("\n")
+        m = re.match(r"(\d+)\s+(.*)$", line)
+        if not m:
+            continue
+        pid, rest = m.group(1), m.group(2)
+        if rest.endswith("<unfinished ...>"):
+            pending[pid] = rest[:-len("<unfinished ...>")].rstrip()
+            continue
+        r = re.match(r"<\.\.\. \w+ resumed>(.*)$", rest)
+        if r and pid in pending:
+            rest = pending.pop(pid) + r.group(1)
+        yield pid + "  " + rest
+
+
 def _trace_one(exe, top, tag, fg, umask, res):
     """one traced start/stop in its own tree; res[tag] = dict(created=..., pis=..., err=...)"""
     T = os.path.join(top, tag)
@@ -92,13 +111,24 @@ def _trace_one(exe, top, tag, fg, umask, res):
             except OSError:
                 pass
         try:
-            os.kill(int(open(paths["pid"]).read().strip()), signal.SIGTERM)
+            dpid = int(open(paths["pid"]).read().strip())
         except Exception:
+            dpid = None
             out["err"] = "munged did not come up (%s, umask %03o): %s" % (
                 "foreground" if fg else "daemon", umask, (p.stderr.read() or b"").decode(errors="replace")[-400:] if p.poll() is not None else "no pid file")
-        try:
-            p.wait(timeout=15)
-        except subprocess.TimeoutExpired:
+        # SIGTERM is repeated: one that lands between job_accept's flag test and accept() is lost
+        for _ in range(40):
+            if dpid is not None:
+                try:
+                    os.kill(dpid, signal.SIGTERM)
+                except OSError:
+                    pass
+            try:
+                p.wait(timeout=0.5)
+                break
+            except subprocess.TimeoutExpired:
+                pass
+        else:
             out["err"] = out["err"] or "munged did not stop"
         try:
             observed["seed"] = os.lstat(paths["seed"]).st_mode & 0o7777
@@ -115,7 +145,7 @@ def _trace_one(exe, top, tag, fg, umask, res):
     fd_path = {}
     created = {}
     rev = {v: k for k, v in paths.items()}
-    for line in open(tr, errors="replace"):
+    for line in _merged_lines(tr):
         m = re.search(r"\bumask\((0[0-7]*|0)\)", line)
         if m:
             in_force = int(m.group(1), 8)
